@@ -354,6 +354,11 @@ func TestC13Sync(t *testing.T) {
 					it, err := src.GetWriteLog(ctx, start, endRoot)
 					if err != nil {
 						rec.Label(fmt.Sprintf("not-served(%s,%s):%s", srcBackend, when, errClass(err)))
+						if !errors.Is(err, dbApi.ErrWriteLogNotFound) {
+							// "no log for this pair" is an answer (logs discarded by configuration, a pending root that is not
+							// the first candidate of its version); a log that IS stored and cannot be read back is not
+							fail("served-log-unreadable", "%s: the database holds a write log for %s->%s and cannot serve it: %v", when, start.Hash.String()[:8], rh.String()[:8], err)
+						}
 						return nil
 					}
 					wl, err := drain(it)
